@@ -186,7 +186,7 @@ def gen_qei_case(rng):
   calls = -(-n // bs)
   b = min(B, N)
   need = calls * (-(-N // b)) * b * c
-  stream = [rng.randint(-12, 12) / 4.0 for _ in range(need + 2 * b * c + 3)]    # slack: a changed loop may ask for more
+  stream = [rng.randint(-12, 12) / 4.0 for _ in range(need + (calls + 1) * b * c + 3)]    # slack: a changed loop may ask for one more block per call
   return dict(kind="qei", q=q, p=p, dim=dim, sets=sets, pending=pending, means=means, factors=factors, best=rng.randint(-16, 16) / 8.0,
               N=N, B=B, entry=entry, batch=batch, as3d=bool(q > 1 or (entry == "direct" and rng.random() < 0.5)), stream=stream)
 
@@ -231,7 +231,7 @@ def run_qei_case(inp):
     sizes.append([int(s) for s in (size if isinstance(size, (tuple, list)) else [size])])
     k = int(numpy.prod(size))
     if loc != 0.0 or scale != 1.0 or pos[0] + k > len(inp["stream"]):
-      raise C.TieBroken("C05 qEI harness: numpy.random.normal asked for non-standard or more draws than scripted")
+      raise RuntimeError("numpy.random.normal asked for non-standard draws or for more draws than any reading of the loop needs")
     out = numpy.array(inp["stream"][pos[0]:pos[0] + k], dtype=float).reshape(size)
     pos[0] += k
     return out
